@@ -36,6 +36,10 @@ def conforms(v, dtype):
     if isinstance(dtype, type) and issubclass(dtype, dict):
         return isinstance(v, dict)
     if isinstance(dtype, type) and issubclass(dtype, types.Structure):
+        if dtype in types.ALIASES.values():
+            # the descriptor class of a value type that has a class of its own (amount, position, cost, transaction): the
+            # truthful announcement is that class (functions, renderers and numberify dispatch on it), never the descriptor
+            return False
         return type(v).__name__.lower() == dtype.name
     if dtype is types.Asterisk:
         return True
@@ -246,6 +250,11 @@ def bean_layer(ctx):
                         % (col['name'], col['name']), 'in-subquery:%s' % col['name'])
             type_oracle(ctx, conn, 'SELECT %s NOT IN (SELECT %s FROM #postings) AS x FROM #postings' % (col['name'], col['name']),
                         'in-subquery:%s' % col['name'])
+        # FROM-subqueries that expose, one after the other, columns of every datatype under ONE name at ONE position
+        for col in facts['tables']['postings']['columns']:
+            type_oracle(ctx, conn, 'SELECT x FROM (SELECT %s AS x FROM #postings)' % col['name'], 'subquery-column:%s' % col['name'])
+        for expr in ('count(*)', 'sum(number)', 'sum(position)', 'first(date)', 'max(account)'):
+            type_oracle(ctx, conn, 'SELECT x FROM (SELECT %s AS x FROM #postings)' % expr, 'subquery-column:%s' % expr)
         # structured attributes
         for sname, attrs in facts['structures'].items():
             base = {'position': ('position', 'postings'), 'cost': ('position.cost', 'postings'), 'amount': ('price', 'postings'),
